@@ -94,6 +94,11 @@ def oracle_time(ctx, ss, t, spec):
             dom = [d.day for d in dates]
             if dates[0].day > 28 and any(x < min(dates[0].day, 28) or (x != dates[0].day and m.month != 2) for x, m in zip(dom[2:], dates[2:])):
                 viol(f'monthly grid from {dates[0]} loses the day of month: {dates[1]}, {dates[2]}, ...', finding_key='month-end-drift')
+        if unit == 'year' and float(dt) == 1.0 and (dates[0].month, dates[0].day) == (ss.date(t.stop).date().month, ss.date(t.stop).date().day) and (dates[0].month, dates[0].day) != (2, 29):
+            # stop is a whole number of calendar years after start: it is a grid point and must be the last one
+            if ords[-1] != stop:
+                viol(f'yearly grid from {dates[0]} to {ss.date(t.stop).date()} ends at {dates[-1]}: the requested stop, a whole number of years after the start, is not part of the timeline ({len(dates)} points)',
+                     finding_key='year-grid-from-mid-year-date-drops-stop' if (dates[0].month, dates[0].day) != (1, 1) else None)
         yv = np.asarray(t.yearvec, dtype=float)
         want = np.array([d.year + (d - dtm.date(d.year, 1, 1)).days / (dtm.date(d.year + 1, 1, 1) - dtm.date(d.year, 1, 1)).days for d in dates])
         if np.abs(yv - want).max() > 1.5 / 365: viol('year vector does not denote the dates of the date vector (more than a day apart)')
@@ -127,6 +132,8 @@ def gen_calendar(rng, century=False):
     else:
         dt = rng.choice([1.0, 2.0, 7.0, 1.5, 0.5, 2.5, 10.0] if unit == 'day' else [1.0, 2.0, 1.5, 0.5, 4.0])
         e = s + dtm.timedelta(days=rng.randint(5, 120))
+    if unit == 'year' and rng.random() < 0.5 and (s.month, s.day) != (2, 29):      # a stop that is a whole number of calendar years after the start
+        dt = 1.0; e = dtm.date(s.year + rng.randint(1, 6), s.month, s.day)
     return dict(kind='calendar', unit=unit, start=s.isoformat(), stop=e.isoformat(), dt=dt)
 
 
@@ -183,6 +190,26 @@ Definition ok (c : timeline * nat * list Q * list Q * list Q * list Z * Z) : boo
     ctx.cov['divergences'] = len(bad)
     if specs: ctx.sample(dict(kind='time specification', spec=specs[0], npts=times[0].npts))
     ctx.guard('module_placement', module_placement, ctx, ss)
+    ctx.guard('duration_forms', duration_forms, ctx, ss)
+
+
+def duration_forms(ctx, ss):
+    """start + dur (instead of stop): the timeline has dur/dt + 1 points and its elapsed-time vector ends at dur, whatever the unit and the form of the start."""
+    for unit in ('day', 'week', 'month', 'year'):
+        for start in (None, 2000, '2000-01-01', '2021-03-01'):
+            for dur, dt in ((12, 1.0), (1, 1.0), (10, 2.0), (6, 0.5)):
+                key = dict(probe='start+dur', unit=unit, start=start, dur=dur, dt=dt)
+                try:
+                    sim = ss.Sim(n_agents=5, unit=unit, dur=dur, dt=dt, verbose=0, **({} if start is None else dict(start=start))); sim.init()
+                except Exception as E:
+                    ctx.dist('start+dur rejected by the constructor'); continue
+                ctx.count(repr(key), nontrivial=True); ctx.dist('start+dur forms')
+                want = int(round(dur / dt)) + 1; t = sim.t
+                if t.npts != want or abs(float(t.tvec[-1]) - dur) > 1e-6:
+                    w = dict(key)
+                    if unit in ('month', 'year') and not t.is_numeric: w['finding_key'] = 'date-start-plus-dur-loses-final-point'
+                    elif float(dt) != int(dt) and unit in ('day', 'week') and not t.is_numeric: w['finding_key'] = 'fractional-step-date-drift'
+                    ctx.violation(f'{key}: the timeline has {t.npts} points and its elapsed time ends at {float(t.tvec[-1])}; start + dur is a grid point, so {want} points ending at {dur} are expected', w)
 
 
 def module_placement(ctx, ss):
